@@ -91,6 +91,15 @@ class World:
                "snaps": {}, "content": {}, "stderr": res.stderr[-1500:], "ran": [l[1] for l in read_log(self.log)[before:] if l[0] == "S"]}
         for p in out["stdout_paths"]:
             out["snaps"][p] = simlib.snapshot(os.path.join(d, p))
+        # optional outputs (named after the content of the inputs) of every target that was built
+        out["optlogs"] = {}
+        for lab in rs.closure(spec, rs.expand_request(spec, req)):
+            ft = rs.find_target(spec, lab)
+            if ft and ft[1].get("optlog"):
+                base = os.path.join("plz-out/bin" if ft[1].get("binary") else "plz-out/gen", ft[0])
+                for n in sorted(os.listdir(os.path.join(d, base))) if os.path.isdir(os.path.join(d, base)) else []:
+                    if n.startswith(ft[1]["name"] + "_") and n.endswith(".optlog"):
+                        out["optlogs"][os.path.join(base, n)] = simlib.snapshot(os.path.join(d, base, n))
         # content digests for every target in the closure (for C03's input-change model)
         for lab in (all_labels or []):
             out["content"][lab] = self._content_digest(spec, lab, d, {})
@@ -144,6 +153,13 @@ class World:
             want = clean["snaps"][p]
             if got != want:
                 diffs.append(describe_diff(p, got, want))
+                kinds |= diff_kinds(got, want)
+        self.stats["optional_outputs_compared"] = self.stats.get("optional_outputs_compared", 0) + len(clean.get("optlogs", {}))
+        for p, want in sorted(clean.get("optlogs", {}).items()):
+            # what a build of this tree would leave behind must be there (files of other states may linger)
+            got = simlib.snapshot(os.path.join(root or self.repo, p))
+            if got != want:
+                diffs.append("optional output " + describe_diff(p, got, want))
                 kinds |= diff_kinds(got, want)
         return diffs, kinds
 
